@@ -582,6 +582,11 @@ func famRawConv(w *World, c *Case, rng *rand.Rand) {
 				w.Violate("C08", "non-increasing-id-accepted", "deviation %s: new_stream with id %d, not greater than every id seen, did not end the tunnel", desc, frames[diesAt].f.StreamId)
 			}
 			w.Violate("C09", "tunnel-level-violation-not-fatal", "deviation %s is a tunnel-level violation (frame %d) but the tunnel server kept serving", desc, diesAt)
+			if serveReturned && !recvDone {
+				// the serving call gave the tunnel up, yet the carrier stream was not released: the peer
+				// never observes the end ("both ends observe it")
+				w.Violate("C04", "aborted-tunnel-not-visible-to-peer", "deviation %s: the serving call returned (%q) but the carrier stream was neither ended nor cancelled: the peer still sees a live tunnel", desc, serveErr)
+			}
 		} else if serveErr == "" {
 			w.Violate("C09", "tunnel-level-violation-nil-error", "deviation %s is a tunnel-level violation but the serving call returned a nil error", desc)
 		}
